@@ -382,9 +382,11 @@ fn gen_cigar(rng: &mut Rng) -> Vec<(u8, usize)> {
         2 => 9,
         _ => rng.range(1, 7) as usize,
     };
+    // every third CIGAR is made of sequence match / mismatch ops only (e.g. 2=1X2=)
+    let eqx = rng.chance(1, 3);
     (0..n)
         .map(|i| {
-            let k = if n == 9 { i as u8 } else { rng.below(9) as u8 };
+            let k = if n == 9 { i as u8 } else if eqx { *rng.pick(&[7u8, 8, 7, 1, 4]) } else { rng.below(9) as u8 };
             let l = match rng.below(8) {
                 0 => 1,
                 1 => *rng.pick(&[9usize, 10, 99, 100, 255, 256]),
@@ -614,6 +616,8 @@ fn generate(rng: &mut Rng, tier: &str, w: &mut CaseWriter) {
             &b"r\t4\t*\t0\t255\t*\t*\t0\t0\t*\t*\tXB:i:1\tXA:B:c\n"[..],
             &b"r\t4\t*\t0\t255\t*\t*\t0\t0\t*\t*\tXA:B:c\tXC:B:C\tXs:B:s\tXS:B:S\tXi:B:i\tXI:B:I\tXf:B:f\tXZ:Z:\tXH:H:\n"[..],
             &b"r\t99\tchr1\t5\t7\t3M\t=\t9\t-7\tACG\t!~*\tXf:B:f,1.5,-0\tXA:B:c\tXB:B:c,-128,127\n"[..],
+            &b"r\t99\tchr1\t5\t7\t2=1X2=\t=\t9\t-7\tACGTA\t!~*AB\tNM:i:1\n"[..],
+            &b"r\t0\tchr2\t1\t0\t1M1I1D1N1S1H1P1=1X\t*\t0\t0\tACGTN\t*\n"[..],
         ] {
             w.push("lz", vec![enc_refs(&refs), hex(l)]);
         }
@@ -740,6 +744,8 @@ fn generate(rng: &mut Rng, tier: &str, w: &mut CaseWriter) {
             w.push("fsw", vec![base.to_string(), "4096".into()]);
         }
     }
+    // deepening round 2 (appended last so that the draws of the older kinds are unchanged)
+    generate_part4(rng, tier, w);
 }
 
 fn main() {
